@@ -66,7 +66,7 @@ def xml_tree(xml):
 
 def legal_on_tree(parent, children, kind, cfg):
     ids = set(cfg)
-    if any(i not in kind for i in cfg) or any(n.startswith('?') for n in kind):
+    if any(i not in kind for i in cfg):
         # a state without id (the damage removed it) is reported by the engine under an XPath the document-side tree does not
         # know: such a configuration cannot be judged by name
         return None
@@ -77,6 +77,8 @@ def legal_on_tree(parent, children, kind, cfg):
         if p is not None and p not in ids:
             return "parent of %s (%s) not active" % (i, p)
         kids = children.get(i, [])
+        if any(c.startswith('?') for c in kids):
+            continue   # a child without a name cannot be recognised in the configuration
         if kind[i] == "parallel":
             for c in kids:
                 if c not in ids:
